@@ -310,12 +310,15 @@ static void wlThen() {
 // one of them must run exactly once, after the antecedent is ready (a continuation stranded in the
 // then-chain shows as a get() that never returns)
 static int g_fanPending;
+static int g_fanWorkMul = 1;
 static void fanHangKey(char* buf, size_t n) {
   snprintf(buf, n, g_fanPending ? "continuation-never-run" : "other");
 }
 static void wlThenFanout() {
   int nThreads = range(1, 3);
-  int nReg = range(1, 3);
+  // a lone continuation is the case in which nobody else can rescue a stranded link: give it a good share
+  bool lone = chance(1, 3);
+  int nReg = lone ? 1 : range(1, 3);
   int schedKind = (int)pick(3); // 0 pool 1 immediate 2 CTS
   bool asyncPol = chance(1, 2);
   int work = range(0, 10);
@@ -332,22 +335,31 @@ static void wlThenFanout() {
   memset(runs, 0, sizeof runs);
   g_fanPending = 0;
   sim_set_hang_keyer(fanHangKey);
+  static int bodyStarted;
+  bodyStarted = 0;
   auto antecedent = [work]() {
     return [work]() {
-      sim_work(work);
+      bodyStarted = 1;
+      sim_work(work * g_fanWorkMul);
       src.runs++;
       src.done = true;
       return 1;
     };
   };
+  // when a registrar calls then(): at once, or a little after the antecedent's body has started (so that
+  // registration and completion are close), or after a long delay
+  int regMode = (int)pick(3);
+  sim_note("regmode", regMode);
+  static const int muls[] = {1, 4, 10, 25};
+  g_fanWorkMul = regMode == 1 ? oneOf(muls) : 1; // then() itself is tens of points long: stretch the body to meet it
   dispenso::Future<int> first = chance(1, 2) ? dispenso::Future<int>(antecedent(), nti)
                                              : dispenso::Future<int>(antecedent(), pool, std::launch::async);
   std::vector<std::vector<dispenso::Future<int>>> results((size_t)nReg);
   std::vector<std::thread> regs;
   int ks[3], delays[3], total = 0;
   for (int t = 0; t < nReg; ++t) {
-    ks[t] = range(1, 3);
-    delays[t] = range(0, 8);
+    ks[t] = lone ? 1 : range(1, 3);
+    delays[t] = range(0, 12);
     total += ks[t];
   }
   // nobody calls get()/wait() on a continuation's future before every continuation has run by
@@ -360,7 +372,10 @@ static void wlThenFanout() {
     int base = slot;
     slot += k;
     auto body = [&, t, k, delay, base](dispenso::Future<int> mine) {
-      sim_work(delay);
+      if (regMode == 1)
+        for (int i = 0; i < 100000 && !bodyStarted; ++i)
+          sim_sleep_ns(500);
+      sim_work(regMode == 2 ? delay * 25 : delay);
       for (int j = 0; j < k; ++j) {
         int id = base + j;
         auto cont = [id](dispenso::Future<int>&& ante) {
@@ -400,6 +415,83 @@ static void wlThenFanout() {
   for (int i = 0; i < slot; ++i)
     if (runs[i] != 1)
       sim_fail("then-fanout:never-run", "continuation %d ran %d times", i, runs[i]);
+}
+
+// One continuation per future, nobody else interested in that future: the case in which a link that the
+// completing thread overlooks can be rescued by nobody (no second then(), no waiter).  The window is a
+// couple of atomic operations wide while then() is hundreds of points long, so one run makes several
+// independent attempts, each registering close to the moment its antecedent completes.
+static void wlThenLone() {
+  int nThreads = range(1, 3);
+  int reps = range(2, 8);
+  int schedKind = (int)pick(3); // 0 pool 1 immediate 2 CTS
+  bool asyncPol = chance(1, 2);
+  sim_note("pool", nThreads);
+  sim_note("reps", reps);
+  sim_note("sched", schedKind);
+  dispenso::ThreadPool pool((size_t)nThreads, (size_t)(chance(1, 3) ? 1 : 32));
+  dispenso::ConcurrentTaskSet cts(pool);
+  dispenso::ImmediateInvoker imm;
+  dispenso::NewThreadInvoker nti;
+  static Src srcs[8];
+  static int started[8];
+  static int runs[8];
+  for (int i = 0; i < 8; ++i) {
+    srcs[i] = Src();
+    started[i] = 0;
+    runs[i] = 0;
+  }
+  g_fanPending = 0;
+  sim_set_hang_keyer(fanHangKey);
+  static SimLatch allRan;
+  allRan = SimLatch(reps);
+  std::vector<dispenso::Future<int>> conts;
+  static const int muls[] = {1, 4, 10, 25};
+  for (int r = 0; r < reps; ++r) {
+    int work = range(0, 10) * oneOf(muls);
+    int mode = (int)pick(3);
+    int delay = range(0, 12);
+    auto body = [r, work]() {
+      return [r, work]() {
+        started[r] = 1;
+        sim_work(work);
+        srcs[r].runs++;
+        srcs[r].done = true;
+        return 1;
+      };
+    };
+    dispenso::Future<int> first =
+        chance(1, 3) ? dispenso::Future<int>(body(), nti) : dispenso::Future<int>(body(), pool, std::launch::async);
+    if (mode == 1)
+      for (int i = 0; i < 100000 && !started[r]; ++i)
+        sim_sleep_ns(300);
+    sim_work(mode == 2 ? delay * 25 : delay);
+    auto cont = [r](dispenso::Future<int>&& ante) {
+      if (runs[r]++ > 0)
+        sim_fail("then-lone:dup-run", "continuation %d ran twice", r);
+      if (!ante.is_ready() || !srcs[r].done)
+        sim_fail("then-lone:antecedent-not-ready", "continuation %d started while its antecedent is not ready", r);
+      int v = ante.get() + r;
+      allRan.countDown();
+      return v;
+    };
+    auto pol = asyncPol ? std::launch::async : dispenso::kNotAsync;
+    conts.push_back(schedKind == 0 ? first.then(cont, pool, pol)
+                                   : (schedKind == 1 ? first.then(cont, imm, pol) : first.then(cont, cts, pol)));
+    // `first` goes out of scope here: only the library holds the antecedent now
+  }
+  g_fanPending = 1;
+  allRan.wait();
+  for (int r = 0; r < reps; ++r) {
+    int got = conts[(size_t)r].get();
+    if (got != 1 + r)
+      sim_fail("then-lone:wrong-value", "continuation %d produced %d", r, got);
+  }
+  g_fanPending = 0;
+  cts.wait();
+  for (int r = 0; r < reps; ++r)
+    if (runs[r] != 1)
+      sim_fail("then-lone:never-run", "continuation %d ran %d times", r, runs[r]);
 }
 
 static void wlWhen() {
@@ -637,7 +729,8 @@ static void wlTimedFuture() {
 
 HX_WORKLOAD("C18", "future", wlFuture, SF_ALL, 4000000, 4000000, 1);
 HX_WORKLOAD("C19", "then", wlThen, SF_ALL, 4000000, 4000000, 1);
-HX_WORKLOAD("C19", "then-fanout", wlThenFanout, SF_ALL, 400000, 400000, 3);
+HX_WORKLOAD("C19", "then-fanout", wlThenFanout, SF_ALL, 400000, 400000, 2);
+HX_WORKLOAD("C19", "then-lone", wlThenLone, SF_ALL, 400000, 400000, 2);
 HX_WORKLOAD("C19", "when", wlWhen, SF_ALL, 4000000, 4000000, 1);
 HX_WORKLOAD("C20", "timed-event", wlTimedEvent, SF_ALL, 4000000, 4000000, 1);
 HX_WORKLOAD("C20", "timed-future", wlTimedFuture, SF_ALL, 4000000, 4000000, 1);
